@@ -181,6 +181,12 @@ type outcome struct {
 	vals   []aval       // returned constants (for kind return, when evaluable)
 	clause ast.Node     // the case clause / branch that was selected last
 	stmts  []ast.Stmt   // the straight-line statements executed (assignments etc.)
+	// values appended by `x = append(x, v…)` statements, evaluated when the
+	// statement was reached (-1: not evaluable); appendTo names the slice
+	appends  []int64
+	appendTo []string
+	// assignments of evaluable values to variables not tracked before: name=value
+	sets map[string]int64
 }
 
 // run abstractly executes a statement list.  Assignments to variables that
@@ -302,6 +308,14 @@ func (env *aenv) stmt(s ast.Stmt, lenient bool, out *outcome) bool {
 		var o2 outcome
 		left := env.run(sel.Body, lenient, &o2)
 		out.stmts = append(out.stmts, o2.stmts...)
+		out.appends = append(out.appends, o2.appends...)
+		out.appendTo = append(out.appendTo, o2.appendTo...)
+		for k, v := range o2.sets {
+			if out.sets == nil {
+				out.sets = map[string]int64{}
+			}
+			out.sets[k] = v
+		}
 		out.vals = o2.vals
 		if left {
 			if o2.kind == "break" && o2.label == "" {
@@ -313,6 +327,22 @@ func (env *aenv) stmt(s ast.Stmt, lenient bool, out *outcome) bool {
 		return false
 	case *ast.AssignStmt:
 		out.stmts = append(out.stmts, s)
+		if len(s.Lhs) == 1 && len(s.Rhs) == 1 {
+			if call, ok := s.Rhs[0].(*ast.CallExpr); ok {
+				if id, ok := call.Fun.(*ast.Ident); ok && id.Name == "append" {
+					if _, isB := env.info.ObjectOf(id).(*types.Builtin); isB && len(call.Args) >= 1 {
+						for _, a := range call.Args[1:] {
+							if v, ok := env.tryEval(a); ok && !v.isBool {
+								out.appends = append(out.appends, v.i)
+							} else {
+								out.appends = append(out.appends, -1)
+							}
+							out.appendTo = append(out.appendTo, types.ExprString(call.Args[0]))
+						}
+					}
+				}
+			}
+		}
 		if len(s.Lhs) == len(s.Rhs) {
 			for i, l := range s.Lhs {
 				id, ok := l.(*ast.Ident)
@@ -347,6 +377,18 @@ func (env *aenv) stmt(s ast.Stmt, lenient bool, out *outcome) bool {
 				}
 				if okv {
 					env.vars[obj] = v
+					if out.sets == nil {
+						out.sets = map[string]int64{}
+					}
+					if v.isBool {
+						if v.b {
+							out.sets[id.Name] = 1
+						} else {
+							out.sets[id.Name] = 0
+						}
+					} else {
+						out.sets[id.Name] = v.i
+					}
 				} else {
 					delete(env.vars, obj)
 				}
